@@ -808,7 +808,54 @@ pub fn c09_judge(ex: &Execution, reference: &Execution, completion: &[usize], st
     None
 }
 
+/// Completion offsets of the pinned baseline (`c09_golden.json` in the working directory, produced by
+/// `MC_C09_WRITE_GOLDEN=1 ./check C09 quick` on the unchanged tree). The completion offsets used by
+/// the check are computed with the parser under test itself, so a change that delays an item in the
+/// same way for every source (e.g. reads all size lines of a section before it hands out the first)
+/// moves them along; the recorded baseline pins them: an item may complete earlier than recorded,
+/// never later.
+fn c09_golden() -> &'static std::collections::HashMap<String, Vec<usize>> {
+    static GOLDEN: std::sync::OnceLock<std::collections::HashMap<String, Vec<usize>>> = std::sync::OnceLock::new();
+    GOLDEN.get_or_init(|| {
+        let mut m = std::collections::HashMap::new();
+        if let Ok(text) = std::fs::read_to_string("c09_golden.json") {
+            if let Ok(Value::Object(o)) = serde_json::from_str::<Value>(&text) {
+                for (k, v) in o {
+                    if let Some(a) = v.as_array() {
+                        m.insert(k, a.iter().filter_map(|x| x.as_u64().map(|n| n as usize)).collect());
+                    }
+                }
+            }
+        }
+        m
+    })
+}
+
+static C09_NEW_GOLDEN: std::sync::Mutex<Vec<(String, Vec<usize>)>> = std::sync::Mutex::new(Vec::new());
+
+fn c09_write_golden() {
+    if std::env::var_os("MC_C09_WRITE_GOLDEN").is_none() {
+        return;
+    }
+    let mut all: serde_json::Map<String, Value> = match std::fs::read_to_string("c09_golden.json").ok().and_then(|t| serde_json::from_str::<Value>(&t).ok()) {
+        Some(Value::Object(o)) => o,
+        _ => serde_json::Map::new(),
+    };
+    for (k, v) in C09_NEW_GOLDEN.lock().unwrap().drain(..) {
+        all.insert(k, json!(v));
+    }
+    let mut keys: Vec<&String> = all.keys().collect();
+    keys.sort();
+    let mut out = String::from("{\n");
+    for (i, k) in keys.iter().enumerate() {
+        out.push_str(&format!(" {}: {}{}\n", serde_json::to_string(k).unwrap(), serde_json::to_string(&all[*k]).unwrap(), if i + 1 < keys.len() { "," } else { "" }));
+    }
+    out.push_str("}\n");
+    std::fs::write("c09_golden.json", out).expect("write c09_golden.json");
+}
+
 pub fn c09(subjects: &[Box<dyn Subject>], docs: &[Doc], tier: Tier, budget: &Budget, report: &mut Report) {
+    let write_golden = std::env::var_os("MC_C09_WRITE_GOLDEN").is_some();
     let units: Vec<(usize, usize)> = c05_units(subjects, docs).into_iter().filter(|(s, _)| subjects[*s].streaming()).collect();
     let total = crate::par::par_fold(
         units.len(),
@@ -830,6 +877,21 @@ pub fn c09(subjects: &[Box<dyn Subject>], docs: &[Doc], tier: Tier, budget: &Bud
             }
             acc.states += 1;
             let (completion, strict) = completion_offsets(subject, input, &reference);
+            // pinned baseline: no item may complete later than recorded for this subject and document
+            let gkey = format!("{}|{}", subject.name(), hex(input));
+            if write_golden {
+                C09_NEW_GOLDEN.lock().unwrap().push((gkey.clone(), completion.clone()));
+            } else if let Some(g) = c09_golden().get(&gkey) {
+                acc.count("documents_with_a_recorded_baseline", 1);
+                if let Some(i) = (0..completion.len().min(g.len())).find(|&i| completion[i] > g[i]) {
+                    let key = format!("{}/read-ahead/later-than-baseline", family_of(subject));
+                    acc.violation_with(&key, input.len() as u64, || {
+                        (format!("{} on {:?}: item #{i} ({}) is only handed out once the input up to offset {} is there (parser fed the shortest prefix + end of input); the recorded baseline needs offset {} only", subject.name(), show(input), reference.items[i], completion[i], g[i]), replay_json("C09", subject, input, &Spec::oneshot()))
+                    });
+                }
+            } else {
+                acc.count("documents_without_a_recorded_baseline", 1);
+            }
             let mut judge = |spec: &Spec, ex: &Execution, rep: &mut Report| {
                 rep.evaluations += 1;
                 rep.transitions += ex.src.borrow().read_calls as u64;
@@ -851,6 +913,10 @@ pub fn c09(subjects: &[Box<dyn Subject>], docs: &[Doc], tier: Tier, budget: &Bud
         |a, b| a.merge(b),
     );
     report.merge(total);
+}
+
+pub fn c09_finish() {
+    c09_write_golden();
 }
 
 pub fn c09_replay(subject: &dyn Subject, v: &Value) -> (bool, String) {
